@@ -253,16 +253,16 @@ EQV_PARTIAL = ['the equivariance theorems are stated for the formula stages (eve
 
 PROPS['C05'] = dict(
     lean=['QscProofs.Eqv', 'QscProofs.C20Spec', 'QscProofs.C03Axis', 'QscProofs.EqvGrid', 'QscProofs.C05Sigma', 'QscProofs.C06Sigma'], theorems=eqv_theorems(EQV_ALL) + ['C05Sigma.' + t for t in ('sig_shiftState', 'residual_shift_covariant', 'solution_shift', 'solution_shift_iff', 'gridD_comm_shift', 'residual_shift_covariant_grid', 'solution_shift_grid')] + ['C06Sigma.' + t for t in ('gridDw_comm_shift', 'residual_shift_covariant₂', 'residual_shift_covariant_gridw', 'solution_shift_gridw', 'gridDw_not_comm_shift')] + ['C20Spec.toep_circulant', 'C03Axis.f0_periodic', 'EqvGrid.toep_shift', 'EqvGrid.gridOps_lawful', 'EqvGrid.curvature_shift', 'EqvGrid.X2c_shift', 'EqvGrid.DMerc_times_r2_shift'],
-    gen=EQV_ALL, eqv=EQV_ALL, corr=corr_generated(['Axis', 'R1d', 'R2', 'R3']), oracle=oracle_multi(oracles.oracle_C05),
+    gen=EQV_ALL, eqv=EQV_ALL, corr=corr_generated(['Axis', 'R1d', 'R2', 'R3']), oracle=oracle_multi(oracles.oracle_C05, lambda objs, st: oracles.oracle_helicity_kernel(st, 5, 12)),
     rule=RULE, partial=EQV_PARTIAL + ['the first-order solve: the cyclically shifted solution (same iota, sigma0 taken at the new origin) solves the shifted discrete sigma equation - proved for the generated residual and the concrete d/dvarphi matrix with its (shifted) non-constant weight (C05Sigma, C06Sigma); that Newton FINDS that root from the shifted initial guess is the measured part (the oracle checks both descriptions converge to it)', 'phi, varphi and (for helicity != 0) the *_untwisted coefficients are coordinate-dependent: they follow explicit laws (checked by the oracle), not a cyclic shift'])
 PROPS['C06'] = dict(
     lean=['QscProofs.Eqv', 'QscProofs.C13', 'QscProofs.EqvGrid', 'QscProofs.C06Sigma'], theorems=eqv_theorems(EQV_ALL) + ['C06Sigma.' + t for t in ('gridDw_rep', 'residual_repetition_covariant', 'solution_repetition', 'residual_repetition_covariant_grid', 'solution_repetition_grid', 'resForm_repetition')] + ['C13.counter_mul_four', 'EqvGrid.toep_rep', 'EqvGrid.sum_comp_modNat', 'EqvGrid.linearMap_eq_zero_of_modes', 'EqvGrid.curvature_repetition', 'EqvGrid.X2c_repetition', 'EqvGrid.DMerc_times_r2_repetition'],
-    gen=EQV_ALL, eqv=EQV_ALL, corr=corr_generated(['Axis', 'R1d', 'R2']), oracle=oracle_multi(oracles.oracle_C06, count=6),
+    gen=EQV_ALL, eqv=EQV_ALL, corr=corr_merge(corr_generated(['Axis', 'R1d', 'R2']), corr_hand_kernels(['helicity'])), oracle=oracle_multi(oracles.oracle_C06, lambda objs, st: oracles.oracle_helicity_kernel(st, 6), count=6),
     rule=RULE + '; nfp = k compared with nfp = 1 at k*nphi for odd k', partial=EQV_PARTIAL)
 PROPS['C07'] = dict(
     lean=['QscProofs.Eqv', 'QscProofs.C15', 'QscProofs.C13', 'QscProofs.C20Spec', 'QscProofs.EqvGrid', 'QscProofs.C05Sigma', 'QscProofs.C06Sigma'], theorems=eqv_theorems(EQV_ALL) + ['C05Sigma.' + t for t in ('residual_reversal_covariant', 'solution_reversal', 'residual_mirror_covariant', 'residual_reversal_mirror_covariant', 'gridD_anticomm_rev', 'residual_reversal_covariant_grid')] + ['C06Sigma.gridDw_anticomm_rev', 'C06Sigma.residual_reversal_covariant_gridw'] + ['EqvGrid.toep_neg', 'EqvGrid.curvature_reversal', 'EqvGrid.X2c_reversal', 'EqvGrid.Z2c_reversal', 'EqvGrid.d2_l_d_phi2_reversal', 'EqvGrid.DMerc_times_r2_reversal', 'C15.lasym_iff', 'C15.lasym_false_iff', 'C13.counter_flipZ', 'C13.counter_reverse', 'C20Spec.toep_antisymm'],
-    gen=EQV_ALL, eqv=EQV_ALL, corr=corr_merge(corr_generated(['Axis', 'R1d', 'GradB', 'R2', 'Mercier', 'GGB', 'R3', 'RSing']), corr_hand_kernels(['vmec'])),
-    oracle=oracle_multi(oracles.oracle_C07), rule=RULE, partial=EQV_PARTIAL)
+    gen=EQV_ALL, eqv=EQV_ALL, corr=corr_merge(corr_generated(['Axis', 'R1d', 'GradB', 'R2', 'Mercier', 'GGB', 'R3', 'RSing']), corr_hand_kernels(['vmec', 'helicity'])),
+    oracle=oracle_multi(oracles.oracle_C07, lambda objs, st: oracles.oracle_helicity_kernel(st, 7)), rule=RULE, partial=EQV_PARTIAL)
 PROPS['C08'] = dict(
     lean=['QscProofs.Eqv', 'QscProofs.EqvUse', 'QscProofs.C06Sigma'], theorems=eqv_theorems(EQV_ALL) + ['EqvUse.DMerc_units', 'C06Sigma.rhs_scalePar', 'C06Sigma.residual_scale_invariant', 'C06Sigma.solution_scale_iff'],
     gen=EQV_ALL, eqv=EQV_ALL, corr=corr_generated(['Axis', 'R1d', 'GradB', 'R2', 'Mercier', 'GGB', 'R3', 'RSing']),
@@ -292,7 +292,7 @@ PROPS['C12'] = dict(
 
 PROPS['C13'] = dict(
     lean=['QscProofs.C13', 'QscProofs.C03'], theorems=thms('QscProofs.C13') + ['C03.untwist_h0', 'C03.untwist_same_surface_1'], gen=['R1d', 'R2', 'R3', 'BmagCyl', 'BmagBoozer'],
-    corr=corr_merge(corr_generated(['R1d', 'BmagCyl', 'BmagBoozer']), corr_hand_kernels(['helicity'])), oracle=lambda ctx: (lambda st: (oracles.oracle_C13(ctx.all_orders(), st), oracles.oracle_C13_signs(st, ctx.thorough), oracles.oracle_C13_synthetic(st, ctx.seed, 60 if ctx.thorough else 15), oracles.oracle_history(ctx.all_orders()[::3], st, seed=ctx.seed), st.out())[-1])(oracles.Stats()),
+    corr=corr_merge(corr_generated(['R1d', 'BmagCyl', 'BmagBoozer']), corr_hand_kernels(['helicity'])), oracle=lambda ctx: (lambda st: (oracles.oracle_C13(ctx.all_orders(), st), oracles.oracle_C13_signs(st, ctx.thorough), oracles.oracle_C13_synthetic(st, ctx.seed, 60 if ctx.thorough else 15), oracles.oracle_helicity_kernel(st, ctx.seed, 60 if ctx.thorough else 24), oracles.oracle_history(ctx.all_orders()[::3], st, seed=ctx.seed), st.out())[-1])(oracles.Stats()),
     rule=RULE, partial=['the cubic-spline interpolants (nu_spline, B20_spline) are parameters with the contract stated in C13.Bmag_agree; "helicity = winding number" needs the grid to resolve the rotation (consecutive quadrants differ by at most one step): explicit hypothesis of C13.counter_winding'])
 
 PROPS['C14'] = dict(
